@@ -22,7 +22,7 @@ BENIGN = {
 
 # hazard class -> comment texts
 HAZARDS = {
-    "docstring.triple_quote_in_comment": ['Use """triple quotes""" here.', 'See """.', '""" at the start', 'Quote: """'],
+    "docstring.triple_quote_in_comment": ['Use """triple quotes""" here.', 'See """.', '""" at the start', 'Quote: """', 'five """"" quotes', 'escaped \\""" already'],
     "docstring.trailing_backslash": ["Windows path C:\\", "Ends with a backslash \\", "line one\nline two \\"],
     "docstring.backslash_escape": ["Path C:\\users\\xavier", "Matches \\d+ and \\N{x", "Use \\u for unicode", "A newline is written \\n here"],
     "docstring.quote_at_end": ['He said "hello"', "it's", "a 'single' one'", 'two ""'],
@@ -102,14 +102,16 @@ def intact(comments, files):
         if text is None:
             continue
         want = text.strip().split()
+        alts = [want]
         if want and want[-1].endswith('"'):
-            want[-1] += "."            # rst's quote guard: a final double quote gets a period (intended, see rst.py)
+            # rst's quote guard: when its result ends in a double quote (one-line results, nl=False) it gets a period
+            alts.append(want[:-1] + [want[-1] + "."])
         if not ds[tgt]:
             bad.append((tgt, "no docstring found for this element"))
             continue
         for d in ds[tgt]:
             d = d.replace('\\"\\"\\"', '"""')     # an escaped terminator inside a raw docstring reads as the terminator
-            if not _sub(want, d.split()):
+            if not any(_sub(w_, d.split()) for w_ in alts):
                 bad.append((tgt, f"comment words {want[:6]!r}... not found in the docstring {d[:120]!r}"))
                 break
     return bad
